@@ -100,7 +100,9 @@ def run_check(pid, tier, seed):
         ok, msg = core.step_gen()
         if not ok:
             tie.append(("translator", msg))
-        ok, plog = core.step_prove(["theories/Props/%s.vo" % pid] + ["theories/" + t for t in getattr(mod, "EXTRA_VO", [])])
+        extra = ["theories/" + f[:-2] + ".vo" for f in core.vo_closure(os.path.join("Extract", pid + ".v"))
+                 if not f.startswith("Extract")]
+        ok, plog = core.step_prove(["theories/Props/%s.vo" % pid] + extra + ["theories/" + t for t in getattr(mod, "EXTRA_VO", [])])
         proved = ok
         if not ok:
             tie.append(("proof", plog))
